@@ -17,6 +17,7 @@ type Case struct {
 	Progs  []Prog
 	Sched  []int // transaction index per scheduler step; afterwards the rest is drained round-robin
 	Drain  int   // max drain rounds (default 60)
+	OracleOnly string // non-empty: the case is outside Model L for this reason whatever happens
 }
 
 type Event struct {
@@ -35,6 +36,8 @@ type Outcome struct {
 	Steps   int
 	Split   bool
 	Stuck   bool
+	Panicked bool
+	Forced  string
 	lines   [][2]string
 	W       *World
 }
@@ -155,7 +158,7 @@ func Run(c Case) (*Outcome, error) {
 	if err != nil {
 		return nil, err
 	}
-	o := &Outcome{W: w}
+	o := &Outcome{W: w, Forced: c.OracleOnly}
 	for i, pr := range c.Progs {
 		p, err := w.Spawn(i, pr)
 		if err != nil {
@@ -240,7 +243,12 @@ func Run(c Case) (*Outcome, error) {
 			o.Stuck = true
 		}
 	}
-	if o.Stuck {
+	for _, p := range o.Procs {
+		if p.Panic != "" {
+			o.Panicked = true
+		}
+	}
+	if o.Stuck && !o.Panicked {
 		return o, fmt.Errorf("transactions still running after the drain")
 	}
 	o.Final, o.Count, err = w.ColdScan()
@@ -303,6 +311,12 @@ func (p *Proc) extraPages() []int {
 //   slot-alias       : a transaction that added/removed an item and tracks other items too went through a
 //                      refetch: the tracker's item pointers alias the node's slot array, which the add/remove shifted
 func (o *Outcome) OutOfScope() string {
+	if o.Panicked {
+		return "panic"
+	}
+	if o.Forced != "" {
+		return o.Forced
+	}
 	if o.Split {
 		return "structure-change"
 	}
@@ -439,6 +453,24 @@ func refRun(db map[int]int, pr Prog) []refRes {
 	return out
 }
 
+// refRunTolerant: ops the real run refused (negative results: key not found / key exists) are skipped — a
+// negative read is not tracked by the code and is outside the stated workload (phantoms).
+func refRunTolerant(db map[int]int, p *Proc) bool {
+	for i, op := range p.Prog.Ops {
+		if i >= len(p.Results) || !p.Results[i].OK {
+			continue
+		}
+		rr := refRun(db, Prog{Ops: []Op{op}})
+		if !rr[0].ok {
+			return false
+		}
+		if (op.Kind == "get" || op.Kind == "updf") && p.Results[i].Val != rr[0].val {
+			return false
+		}
+	}
+	return true
+}
+
 func sameResults(p *Proc, rr []refRes) bool {
 	if len(rr) != len(p.Results) {
 		return false
@@ -457,7 +489,12 @@ func sameResults(p *Proc, rr []refRes) bool {
 
 // Serializable: is there an order of the committed transactions whose one-at-a-time run gives every one of
 // them the results it saw and ends in the final scan? Returns the explaining order.
-func (o *Outcome) Serializable(c Case) (bool, []int) {
+func (o *Outcome) Serializable(c Case) (bool, []int) { return o.serializable(c, false) }
+
+// SerializableIgnoringNegativeReads: as Serializable, but refused ops are wildcards.
+func (o *Outcome) SerializableIgnoringNegativeReads(c Case) (bool, []int) { return o.serializable(c, true) }
+
+func (o *Outcome) serializable(c Case, tolerant bool) (bool, []int) {
 	var committed []int
 	for i, p := range o.Procs {
 		if p.Result() == "ok" {
@@ -477,7 +514,11 @@ func (o *Outcome) Serializable(c Case) (bool, []int) {
 				db[k] = c.Val
 			}
 			for _, i := range acc {
-				if !sameResults(o.Procs[i], refRun(db, o.Procs[i].Prog)) {
+				if tolerant {
+					if !refRunTolerant(db, o.Procs[i]) {
+						return false, nil
+					}
+				} else if !sameResults(o.Procs[i], refRun(db, o.Procs[i].Prog)) {
 					return false, nil
 				}
 			}
@@ -554,7 +595,7 @@ func (o *Outcome) Signature(c Case) string {
 	// transaction went through refetch-and-merge rounds
 	final := map[int]bool{}
 	for _, r := range o.Final {
-		final[r.Key] = true
+		final[r.Item] = true
 	}
 	removed := map[int]bool{}
 	for i, p := range o.Procs {
@@ -578,7 +619,7 @@ func (o *Outcome) Signature(c Case) string {
 		}
 		for j, op := range p.Prog.Ops {
 			if (op.Kind == "add" || op.Kind == "addne" || op.Kind == "ups") && p.Results[j].OK && p.Results[j].Item >= 1000 &&
-				!final[op.Key] && !removed[op.Key] && plocks >= 3 {
+				!final[p.Results[j].Item] && !removed[op.Key] && plocks >= 3 {
 				return "C02/add-lost-after-second-refetch"
 			}
 		}
